@@ -50,12 +50,32 @@ Lemma source_ids_shape :
   Gen.C10.missing_chains_normalising_calls = [] /\
   Gen.C10.supports_all_input_element = "v.GetChainReferenceID()"%string /\
   Gen.C10.supports_all_result = "len(missingChains) == 0"%string /\
+  Gen.C10.supports_all_returns = ["false"; "len(missingChains) == 0"]%string /\
   Gen.C10.supports_all_normalising_calls = [] /\
   Gen.C10.xchain_type = "evm"%string /\
   Gen.C10.callers_of_SaveModifiedSnapshot = [] /\
   Gen.C10.callers_of_setSnapshotAsCurrent = ["x/valset/keeper:TriggerSnapshotBuild"]%string /\
   Gen.C10.callers_of_SetSnapshotOnChain = ["x/evm/keeper:attest"]%string /\
   Gen.C10.callers_of_TriggerSnapshotBuild = ["x/skyway/keeper:addValidators"; "x/valset:EndBlock"]%string.
+Proof. repeat split; reflexivity. Qed.
+
+(** Every place where a valset leaves for a remote chain — the two callers of SendValsetMsgForChain
+    and the compass constructor input of a deployment — sits behind
+    [if !isEnoughToReachConsensus(v) { … return }] on the very valset it uses ([CSend]'s shape). *)
+Lemma source_gates_shape :
+  Gen.C10.quorum_gates =
+    ["PublishValsetToChain: valset valset from parameter; gate on valset returns=true before use=true";
+     "deploySmartContractToChain: valset valset from transformSnapshotToCompass; gate on valset returns=true before use=true";
+     "justInTimeValsetUpdate: valset latestValset from transformSnapshotToCompass; gate on latestValset returns=true before use=true"]%string /\
+  Gen.C10.projection_calls =
+    ["GetValsetByID: transformSnapshotToCompass(snapshot, req.GetChainReferenceID(), logger)";
+     "PublishSnapshotToAllChains: transformSnapshotToCompass(snapshot, chain.GetChainReferenceID(), logger)";
+     "attestTransactionIntegrity: transformSnapshotToCompass(snapshot, chainReferenceID, logger)";
+     "deploySmartContractToChain: transformSnapshotToCompass(snapshot, chainInfo.GetChainReferenceID(), logger)";
+     "justInTimeValsetUpdate: transformSnapshotToCompass(latestSnapshot, chainReferenceID, k.Logger(sdkCtx))"]%string /\
+  Gen.C10.callers_of_SendValsetMsgForChain =
+    ["x/evm/keeper:PublishValsetToChain"; "x/evm/keeper:justInTimeValsetUpdate"]%string /\
+  Gen.C10.callers_of_PublishValsetToChain = ["x/evm/keeper:PublishSnapshotToAllChains"]%string.
 Proof. repeat split; reflexivity. Qed.
 
 (** the chain-type test, spelled out: exactly the eight spellings of "evm" in ASCII letters *)
@@ -328,6 +348,41 @@ Proof.
   - rewrite Z.leb_le. destruct quorum_constant as [-> _]. reflexivity.
   - apply transform_powers_nonneg, Hn.
   - unfold two32, two64 in *. lia.
+Qed.
+
+(** * The order produced by the sort does not matter for what is sent
+
+    sort.SliceStable is called with a non-strict comparator (GTE), so which of several validators
+    with EQUAL shares comes first depends on the sorting algorithm (one insertion sort up to 20
+    elements, insertion-sorted blocks merged by symMerge above).  The model fixes one order
+    ([sort_desc]); the statements about content, sum and gate hold for ANY arrangement of the
+    snapshot's validators, so they do not rest on that choice. *)
+Lemma sum_snd_perm (l l' : list (Z * Z)) : Permutation l l' -> zsum (map snd l) = zsum (map snd l').
+Proof. intros P. apply zsum_perm, Permutation_map, P. Qed.
+
+Lemma any_order : forall sn c vs',
+  nonneg (sn_vals sn) -> Permutation vs' (sn_vals sn) ->
+  let total := zsum (map v_share (sn_vals sn)) in
+  let out := flat_map (entries c total) vs' in
+  Permutation out (transform sn c) /\
+  Permutation out (flat_map (ideal_entry c total) (sn_vals sn)) /\
+  0 <= zsum (map snd out) <= two32 /\
+  (is_enough (map snd out) = true <-> 2 ^ 33 / 3 <= zsum (map snd out)).
+Proof.
+  intros sn c vs' Hn P total out.
+  assert (E : transform sn c = flat_map (entries c total) (sort_desc (sn_vals sn))).
+  { unfold transform, transform_vals. cbv zeta. now rewrite total_sort. }
+  assert (P1 : Permutation out (transform sn c)).
+  { rewrite E. apply Permutation_flat_map'. etransitivity; [exact P | symmetry; apply sort_desc_perm]. }
+  destruct (powers_floor_sum sn c Hn) as (_ & _ & _ & P2 & _ & _ & B).
+  assert (S : zsum (map snd out) = zsum (map snd (transform sn c))) by (apply sum_snd_perm, P1).
+  split; [exact P1|]. split; [etransitivity; [exact P1 | exact P2]|]. split; [rewrite S; exact B|].
+  unfold is_enough. rewrite sum_u64_exact.
+  - rewrite Z.leb_le. destruct quorum_constant as [-> _]. reflexivity.
+  - rewrite Forall_forall. intros p Hp.
+    pose proof (transform_powers_nonneg sn c Hn) as F. rewrite Forall_forall in F. apply F.
+    apply in_map_iff in Hp as [x [<- Hx]]. apply in_map. apply (Permutation_in _ P1), Hx.
+  - rewrite S. unfold two32, two64 in *. lia.
 Qed.
 
 (** * Histories: whatever is enqueued had a quorum *)
